@@ -589,6 +589,36 @@ def message_parser_consumes_bodies(ctx, P):
     ctx.floor(P + ':S17-4:message-parser-drains:floor', 'into_inner() sites of packet body readers in the message parser', n, 6)
 
 
+def drain_error_propagates(ctx, P):
+    """`drain()` of a packet body reader is where a body that is SHORTER than its declared length (fixed length cut off, final
+    partial chunk missing) is reported when the packet's own parser stopped reading before the end (Marker, OPS, keys, ESKs ...).  A
+    caller that looks at that result must not have any way from its error side to a successful return: every path from the error
+    edge of a drain call ends in an error exit."""
+    from rules.stream import _err_successors
+    from rules.common import single_defs
+    n = 0
+    for p, r in sorted(ctx.f.bodies.items()):
+        if '::tests::' in p:
+            continue
+        b = ctx.wrap(r)
+        ds = b.calls(r'BufReadParsing::drain$|PacketBodyReader::<.*>::drain$')
+        if not ds:
+            continue
+        defs = single_defs(b)
+        oks = set(ok_exit_blocks(b)) - set(err_exit_blocks(b))
+        for k, (i, t) in enumerate(ds):
+            n += 1
+            es = _err_successors(b, i, defs)
+            if es is None:
+                ctx.ok('%s:S17-4:drain-error-propagates:%s#%d' % (P, p, k), 'R-err', 'the result of drain() is handed on as it is in %s' % p.split('::')[-1], function=p, site=site(b, i))
+                continue
+            hit = sorted(b.reach_from(es) & oks) if es else []
+            ctx.check('%s:S17-4:drain-error-propagates:%s#%d' % (P, p, k), 'R-err', 'no path leads from the error edge of drain() to a successful return in %s' % p.split('::')[-1],
+                      bool(es) and not hit, function=p, site=site(b, i),
+                      missing=None if (es and not hit) else ('an error of drain() (body shorter than declared) can end in the successful return at %s' % site(b, hit[0]) if hit else 'error edge of the drain result not found'))
+    ctx.floor(P + ':S17-4:drain-error:floor', 'drain() calls on packet bodies', n, 9)
+
+
 def packet_bodies_through_body_reader(ctx, P):
     """`PacketBodyReader` is the one reader that enforces the framing of a body (a fixed-length body that ends early is an error, partial
     chunks are followed, indeterminate lengths run to the end).  The generic packet parser `Packet::from_reader` must only ever be
@@ -694,6 +724,7 @@ def run(ctx):
     partial_chunk_size_bounded(ctx, P)
     illegal_framing_stops_the_parser(ctx, P)
     message_parser_consumes_bodies(ctx, P)
+    drain_error_propagates(ctx, P)
     packet_bodies_through_body_reader(ctx, P)
     running_offset_emitters(ctx, P)
     legacy_header_self_consistent(ctx, P)
